@@ -25,6 +25,7 @@ type SpecEnv struct {
 	sumCtx   *sumCtx
 	sumDepth int
 	inHint   bool
+	freshUnknown bool
 	at       *ssa.BasicBlock // resolve source variables as visible at the end of this block
 }
 
@@ -289,6 +290,10 @@ func (e *SpecEnv) ident(name string) *SVal {
 		if v := e.pkgMemberOpt(e.pkg.Pkg, name); v != nil {
 			return v
 		}
+	}
+	if e.freshUnknown {
+		// a local that does not exist (yet) at this return: an arbitrary value
+		return intVal(e.fr.x.em.Fresh("undef."+name, "Int"))
 	}
 	sfail("unknown identifier %q", name)
 	return nil
